@@ -20,7 +20,9 @@ CONSTANTS Kinds,        \* request kinds: "static", "dynamic", "optional" (a dyn
 
 \* observable fields
 Fresh == [data |-> {}, params |-> "none", errors |-> 0, aborted |-> FALSE, status |-> 0, length |-> -1,
-          resp |-> "own", req |-> "cur"]
+          resp |-> "own", req |-> "cur",
+          router |-> "own",     \* Context.Router(): the router that serves the request
+          query |-> "own"]      \* Context.Query*/QueryValues(): the query of THIS request's URL
 
 VARIABLES pool,    \* set of idle contexts (records with residue)
           last     \* [kind, muts, seen]: what the first handler of the last request observed
@@ -37,7 +39,9 @@ InitCtx(c, viaServeHTTP) ==
     status  |-> IF D_KeepWriter \/ ~viaServeHTTP THEN c.status ELSE 0,        \* HandleContext only calls Reset()
     length  |-> IF D_KeepWriter \/ ~viaServeHTTP THEN c.length ELSE -1,
     resp    |-> IF D_KeepResp THEN c.resp ELSE "own",
-    req     |-> IF D_KeepReq \/ ~viaServeHTTP THEN c.req ELSE "cur" ]
+    req     |-> IF D_KeepReq \/ ~viaServeHTTP THEN c.req ELSE "cur",
+    router  |-> "own",          \* a context belongs to the pool of one router
+    query   |-> "own" ]         \* parsed from the request on demand, nothing is kept
 
 \* what the dispatcher itself stores before the first handler runs
 Dispatched(c, kind) == [c EXCEPT !.params = IF kind = "dynamic" THEN "own" ELSE c.params,
@@ -55,7 +59,11 @@ Mutate(c, muts) ==
     status  |-> IF "write" \in muts THEN 201 ELSE IF "hijack" \in muts THEN c.status ELSE (IF c.status = 0 THEN 200 ELSE c.status),   \* end-of-dispatch commit
     length  |-> IF "write" \in muts THEN 3 ELSE 0,
     resp    |-> IF "resp" \in muts THEN "replaced" ELSE c.resp,
-    req     |-> IF "req" \in muts THEN "replaced" ELSE c.req ]
+    req     |-> IF "req" \in muts THEN "replaced" ELSE c.req,
+    \* "delegate": the handler hands its context to ANOTHER router (other.HandleContext(c)), which dispatches on it;
+    \* "query": the handler edits the url.Values it got from QueryValues() - both leave nothing behind in the model
+    router  |-> c.router,
+    query   |-> c.query ]
 
 Request(kind, muts) ==
   /\ \E c \in pool \cup {Fresh} :
